@@ -79,8 +79,8 @@ theorem loadFrom_aborted (st : ProjState) (fs : List (Str × Except Err FileTree
     | error e' => simp [loadFrom, ih]
 
 theorem filter_insertAt_error (k : Nat) (n : Str) (e : Err) (good : List (Str × Except Err FileTree)) :
-    (insertAt k (n, .error e) good).filter isOkFile = good.filter isOkFile := by
-  simp only [insertAt, List.filter_append, List.filter, isOkFile]
+    (insertFileAt k (n, .error e) good).filter isOkFile = good.filter isOkFile := by
+  simp only [insertFileAt, List.filter_append, List.filter, isOkFile]
   rw [← List.filter_append, List.take_append_drop]
 
 end Ford
